@@ -43,9 +43,14 @@ where
 }
 impl V9 for BytesVec<usize, u64> {
     const F: &'static str = "Bytes";
-    fn point_get(ro: &Self::ReadOnly, i: usize) -> Option<Option<u64>> {
+    fn point_get(ro: &Self::ReadOnly, _i: usize) -> Option<Option<u64>> {
+        // the point reader's own length decides which element is read
         let r = ro.reader();
-        Some(r.try_get(i))
+        let n = r.len();
+        if n == 0 {
+            return Some(Some(u64::MAX));
+        }
+        Some(r.try_get(n - 1).map(|x| if x == val(n - 1) { u64::MAX } else { x }))
     }
 }
 impl V9 for PcoVec<usize, u64> {
@@ -139,11 +144,11 @@ where
                     }
                 }
                 "point_reader" => {
-                    if len > 0
-                        && let Some(got) = V::point_get(&ro, len - 1)
-                        && got != Some(val(len - 1))
+                    // u64::MAX encodes "the last element below the reader's own length is the pushed one"
+                    if let Some(got) = V::point_get(&ro, 0)
+                        && got != Some(u64::MAX)
                     {
-                        bad(format!("wrong-element:: round {round}: length {len} observed but the point reader returned {got:?} for element {}", len - 1));
+                        bad(format!("wrong-element:: round {round}: the point reader returned {got:?} for the last element below its own length"));
                     }
                 }
                 _ => {
@@ -470,7 +475,7 @@ fn c10_build(kind: &str) -> Option<Scn> {
             Some(Scn { tmp, jobs, check })
         }
         // a reader held across relocation + flush + reuse of the old extent
-        "reader_across_reuse" => {
+        "reader_across_reuse" | "reader_across_remove" => {
             let db = Database::open_with_min_len(tmp.path(), 1 << 20).ok()?;
             let r = db.create_region_if_needed("r").ok()?;
             r.write(&payload(1, 3000)).ok()?;
@@ -493,9 +498,15 @@ fn c10_build(kind: &str) -> Option<Scn> {
                 }
                 drop(rd);
             });
+            let by_remove = kind == "reader_across_remove";
             let mover: Job = Box::new(move || {
-                r.write(&payload(1, 9000)[3000..]).unwrap(); // relocates r (pad is behind it)
-                db2.flush().unwrap(); // promotes the old extent
+                if by_remove {
+                    r.remove().unwrap(); // frees r's extent
+                } else {
+                    r.write(&payload(1, 9000)[3000..]).unwrap(); // relocates r (pad is behind it)
+                }
+                db2.flush().unwrap(); // would promote the old extent
+                db2.flush().unwrap(); // ... and so would an idle flush
                 let c = db2.create_region_if_needed("c").unwrap(); // may land in the old extent
                 c.write(&payload(9, 3000)).unwrap();
             });
@@ -522,6 +533,10 @@ fn c12_build(kind: &str) -> Option<Scn> {
         "append_into_reserve" => ("b", 5000),
         "append_small" => ("b", 50),
         "append_page_exact" => ("b", 4096 - 100),
+        // region a (3000 of 4096 bytes) outgrows its reserve and expands into the free hole behind it
+        "expand_into_hole" => ("a", 3000),
+        // region c outgrows its reserve with no hole behind it: relocation
+        "relocate" => ("c", 9000),
         _ => return None,
     };
     let r = db.get_region(region)?;
@@ -531,6 +546,7 @@ fn c12_build(kind: &str) -> Option<Scn> {
     let mut expect = before.clone();
     expect.extend_from_slice(&add);
     let r2 = r.clone();
+    let class: &'static str = if kind == "append_into_reserve" { "appended-bytes-lost" } else { "bytes-lost" };
     let writer: Job = Box::new(move || {
         r2.write(&add).unwrap();
     });
@@ -538,12 +554,12 @@ fn c12_build(kind: &str) -> Option<Scn> {
     let compactor: Job = Box::new(move || {
         db2.compact().unwrap();
     });
-    let others: Vec<(String, Vec<u8>)> = ["a", "c", "d", "e", "last"].iter().map(|n| (n.to_string(), db.get_region(n).unwrap().create_reader().read_all().to_vec())).collect();
+    let others: Vec<(String, Vec<u8>)> = ["a", "b", "c", "d", "e", "last"].iter().filter(|n| **n != region).map(|n| (n.to_string(), db.get_region(n).unwrap().create_reader().read_all().to_vec())).collect();
     let check = Box::new(move || {
         let got = r.create_reader().read_all().to_vec();
         if got != expect {
             let at = got.iter().zip(&expect).position(|(a, b)| a != b).unwrap_or(got.len().min(expect.len()));
-            return Err(format!("appended-bytes-lost:: after compact() raced with an append into the reserve, region {region} has {} bytes (expected {}), first difference at offset {at}: {:?} vs {:?}", got.len(), expect.len(), got.get(at), expect.get(at)));
+            return Err(format!("{}:: after compact() raced with an append into the reserve, region {region} has {} bytes (expected {}), first difference at offset {at}: {:?} vs {:?}", class, got.len(), expect.len(), got.get(at), expect.get(at)));
         }
         for (n, bytes) in &others {
             if db.get_region(n).unwrap().create_reader().read_all() != &bytes[..] {
@@ -827,7 +843,7 @@ pub fn check_c09(ctx: &Ctx) -> i32 {
         let mut out = vec![];
         for key in &keys {
             let d = ctx.elapsed() + per;
-            let ex = explore(key, Mode::Mixed { random_first: ctx.pick(10, 60), seed: ctx.seed, max_preempt: ctx.pick(2, 3), max_runs: ctx.pick(150, 3000) }, d, ctx);
+            let ex = explore(key, Mode::Mixed { random_first: ctx.pick(12, 60), seed: ctx.seed, max_preempt: ctx.pick(2, 3), max_runs: ctx.pick(400, 4000) }, d, ctx);
             out.push((key.clone(), ex));
         }
         out
@@ -847,7 +863,7 @@ pub fn check_c10(ctx: &Ctx) -> i32 {
     let plan: Vec<(&str, Mode)> = vec![
         ("c10|isolation2", Mode::Dfs { max_preempt: 2, max_runs: ctx.pick(400, 6000) }),
         ("c10|create_at_file_boundary", Mode::Dfs { max_preempt: 2, max_runs: ctx.pick(300, 3000) }),
-        ("c10|reader_across_reuse", Mode::Dfs { max_preempt: 3, max_runs: ctx.pick(400, 4000) }),
+        ("c10|reader_across_reuse", Mode::Mixed { random_first: 30, seed: ctx.seed, max_preempt: 3, max_runs: ctx.pick(400, 4000) }),
         ("c10|isolation3", Mode::Random { runs: ctx.pick(150, 3000), seed: ctx.seed }),
     ];
     let n = plan.len() as f64;
@@ -862,7 +878,7 @@ pub fn check_c10(ctx: &Ctx) -> i32 {
 
 pub fn check_c12_concurrent(ctx: &Ctx, report: &Report, secs: f64) -> Value {
     let mut agg = Agg::new();
-    let keys = ["c12|append_into_reserve", "c12|append_small", "c12|append_page_exact"];
+    let keys = ["c12|append_into_reserve", "c12|append_small", "c12|append_page_exact", "c12|expand_into_hole", "c12|relocate"];
     let deadline = ctx.elapsed() + secs;
     for key in keys {
         let d = ctx.elapsed() + secs / keys.len() as f64;
@@ -891,7 +907,7 @@ pub fn check_c11(ctx: &Ctx) -> i32 {
             report.inconclusive(format!("pair exploration stopped before {key}"));
             break;
         }
-        let ex = explore(key, Mode::Dfs { max_preempt: ctx.pick(1, 2), max_runs: ctx.pick(24, 600) }, ctx.elapsed() + per * 2.0, ctx);
+        let ex = explore(key, Mode::Mixed { random_first: ctx.pick(6, 40), seed: ctx.seed, max_preempt: ctx.pick(1, 2), max_runs: ctx.pick(18, 600) }, ctx.elapsed() + per * 2.0, ctx);
         agg.absorb(ctx, &report, "C11", key, ex, true);
     }
     agg.stats.add("pairs_explored", agg.scenarios);
@@ -923,6 +939,7 @@ pub fn check_c11(ctx: &Ctx) -> i32 {
     let edges: Vec<(((String, char), (String, char)), BTreeSet<String>)> = agg.edges.iter().filter(|(k, _)| !k.starts_with("acq:")).filter_map(|(k, v)| parse(k).map(|e| (e, v.clone()))).collect();
     let writers_of = |class: &str| -> BTreeSet<String> { agg.edges.get(&format!("acq:{class}(W)")).cloned().unwrap_or_default() };
     let mut directed: BTreeSet<(String, (String, char, String, char, char, char, String))> = BTreeSet::new();
+    let mut pair_cycles: BTreeSet<(String, (String, String, char, char))> = BTreeSet::new();
     for (((x, m1), (y, m2)), ops_a) in &edges {
         for (((y2, m3), (x2, m4)), ops_b) in &edges {
             if x != x2 || y != y2 || x == y {
@@ -938,7 +955,15 @@ pub fn check_c11(ctx: &Ctx) -> i32 {
                 thirds.extend(writers_of(y));
             }
             if x_conflict && y_conflict {
-                continue; // a two-thread cycle: covered by the pair enumeration
+                // a two-thread cycle: drive each of the two to its critical request in both orders
+                for a in ops_a {
+                    for b in ops_b {
+                        if RAW_OPS.contains(&a.as_str()) && RAW_OPS.contains(&b.as_str()) {
+                            pair_cycles.insert((format!("c11|{a}|{b}"), (x.clone(), y.clone(), *m2, *m4)));
+                        }
+                    }
+                }
+                continue;
             }
             for a in ops_a {
                 for b in ops_b {
@@ -958,6 +983,19 @@ pub fn check_c11(ctx: &Ctx) -> i32 {
     }
     let before_directed = agg.scenarios;
     let directed_deadline = ctx.elapsed() + (deadline - ctx.elapsed()) * 0.7;
+    for (key, (x, y, m2, m4)) in &pair_cycles {
+        if ctx.elapsed() > directed_deadline || report.failures_seen() >= 8 {
+            break;
+        }
+        use rawdb::verif::Mode as LM;
+        let md = |c: char| if c == 'W' { LM::Exclusive } else { LM::Shared };
+        // thread 0 = A (holds X, takes Y), thread 1 = B (holds Y, takes X)
+        let ta = (0usize, y.clone(), md(*m2), Some(x.clone()));
+        let tb = (1usize, x.clone(), md(*m4), Some(y.clone()));
+        let ex = explore(key, Mode::Guided(vec![vec![ta.clone(), tb.clone()], vec![tb, ta]]), directed_deadline, ctx);
+        agg.absorb(ctx, &report, "C11", key, ex, true);
+    }
+    let n_pair_cycles = pair_cycles.len();
     // one candidate of every cycle shape first, then the second of every shape, ...
     let mut buckets: BTreeMap<String, Vec<&(String, (String, char, String, char, char, char, String))>> = BTreeMap::new();
     for d in &directed {
@@ -1010,6 +1048,7 @@ pub fn check_c11(ctx: &Ctx) -> i32 {
     cov["triples_explored"] = json!(agg.scenarios - before);
     cov["triples_total"] = json!(triples.len());
     cov["directed_triples_from_lock_order_cycles"] = json!({"candidates": n_directed, "explored": directed_done});
+    cov["directed_pairs_from_lock_order_cycles"] = json!(n_pair_cycles);
     report.finish(ctx, "exploration", cov, &["read-write locks are writer-preferring (a queued writer blocks new readers), as the property states", "only a deadlock that persists when the same threads are released into the real locks in a child process is reported", "no thread keeps a reader alive across another call of its own"])
 }
 
